@@ -5,7 +5,7 @@
    `run optst ds tree = ROk (its, t)`: the loop ended, no `#if` is left, no define is unused; `its` is the final
    top-level node list, `t` the final symbol table, `lookup t` the final valuation. *)
 From Coq Require Import ZArith NArith List Bool.
-From CA Require Import Model.Driver Model.Cond Spec.Select Proofs.DriverP Proofs.CondEvalP Proofs.CondLoopP Proofs.CondSelectP Proofs.CondFixP.
+From CA Require Import Model.Driver Model.Cond Spec.Select Proofs.DriverP Proofs.CondEvalP Proofs.CondLoopP Proofs.CondSelectP Proofs.CondFixP Proofs.CondTotalP.
 Import ListNotations.
 Open Scope list_scope.
 
@@ -85,10 +85,27 @@ Theorem C16_define_parse : forall name, ~ In 61%N name ->
   parse_define (name ++ [61%N; 45%N]) = CErr (EDefineValue name).
 Proof. exact define_parse_short. Qed.
 
-(* fuel.  FULL statement (NOT proved; the correspondence run reports any FUEL answer of the extracted model):
-     forall optst ds tree, run optst ds tree <> RFuel        with fuel_for tree = size + constants + 2.
-   Proved part: a result other than RFuel does not depend on the fuel. *)
-Theorem C16_fuel_partial : forall optst ds tree fuel k r,
+(* totality.  The loop ends within  round_bound tree = (#if nodes, nested ones included) + (constants, ditto) + 1  rounds:
+   every round but the last splices an #if or makes a constant known.  So any fuel >= round_bound gives the answer of `run`
+   (whose own fuel, computed from the program, is >= round_bound), and that answer is never the fuel value ... *)
+Theorem C16_fuel : forall optst ds tree fuel, round_bound tree <= fuel ->
+  run_fuel fuel optst ds tree = run optst ds tree /\ run_fuel fuel optst ds tree <> RFuel.
+Proof. exact run_fuel_bound. Qed.
+
+(* ... and never a panic value: the `item_ref.unwrap()` and `defs.symbols.get(item_ref)` of resolve_constant_simple /
+   next_simple (the only panic sites the model has) are unreachable, because collect + define_symbols run first in every
+   round (every symbol of the flat list is declared and defined when the constants are visited). *)
+Theorem C16_total : forall optst ds tree,
+  (exists its t, run optst ds tree = ROk (its, t)) \/ (exists c, run optst ds tree = RErr c).
+Proof. exact run_ok_or_err. Qed.
+
+(* the same, for every state the loop can be in *)
+Theorem C16_round_total : forall optst ds t its prev, Good ds t its ->
+  round optst ds t its prev <> RPanic /\ round optst ds t its prev <> RFuel.
+Proof. exact round_total. Qed.
+
+(* a result does not depend on the fuel once it is not the fuel value (kept from the earlier partial statement) *)
+Theorem C16_fuel_irrelevant : forall optst ds tree fuel k r,
   run_fuel fuel optst ds tree = r -> r <> RFuel -> run_fuel (fuel + k) optst ds tree = r.
 Proof. exact run_fuel_mono. Qed.
 
@@ -136,6 +153,17 @@ Example C16_forward_chain :
   outcome (run false [] ex_chain) = Some ([17%N], [(T "h0", VInt 1); (T "h1", VInt 1); (T "h2", VInt 1)]) /\
   outcome (run true [(T "h2", VInt 2)] ex_chain) = Some ([34%N], [(T "h0", VInt 2); (T "h1", VInt 2); (T "h2", VInt 2)]) /\
   outcome (run true [(T "h2", VInt 7)] ex_chain) = Some ([51%N], [(T "h0", VInt 7); (T "h1", VInt 7); (T "h2", VInt 7)]).
+Proof. vm_compute. repeat split. Qed.
+
+(* the bound on the rounds is tight: `#if true { x = 1 }` needs 1 + 1 + 1 rounds (splice; x becomes known; nothing changes),
+   a forward chain of three constants 0 + 3 + 1 *)
+Example C16_round_bound_tight :
+  let p := [NIf (CBool true) [NSym 0 (T "x") (SConst (CInt 1))] None] in
+  round_bound p = 3 /\ run_fuel 2 true [] p = RFuel /\ outcome (run_fuel 3 true [] p) = Some ([], [(T "x", VInt 1)]) /\
+  round_bound ex_chain = 6 /\ nodes_consts ex_chain = 3 /\
+  run_fuel 3 true [] [NSym 0 (T "h0") (SConst (v0 "h1")); NSym 0 (T "h1") (SConst (v0 "h2")); NSym 0 (T "h2") (SConst (CInt 1))] = RFuel /\
+  outcome (run_fuel 4 true [] [NSym 0 (T "h0") (SConst (v0 "h1")); NSym 0 (T "h1") (SConst (v0 "h2")); NSym 0 (T "h2") (SConst (CInt 1))])
+    = Some ([], [(T "h0", VInt 1); (T "h1", VInt 1); (T "h2", VInt 1)]).
 Proof. vm_compute. repeat split. Qed.
 
 (* the known finding F55 in the model: the nested symbol keeps the parent it had when it was declared *)
